@@ -200,8 +200,143 @@ class _Canon(ast.NodeTransformer):
         return node
 
 
+class _InlineTemps(ast.NodeTransformer):
+    """`t = E` immediately followed by a simple statement that reads t exactly once - t bound once and read once in the whole function - is
+    read as that statement with E in place of t, provided E is then evaluated at the same point: t is the statement's whole value, or an
+    argument of its outermost call (callee expression and all earlier arguments are names / attribute chains / constants), or the first
+    argument of a builtin-style wrapper `int(t)`, `sorted(t)`, `list(t)`, `str(t)` ... in such an argument position.  Rules then see
+    `f(a, g(x))` whether or not the author named g(x) first."""
+
+    @staticmethod
+    def _pure(e):
+        return _Canon._pure(e)
+
+    def visit_FunctionDef(self, node):
+        self.generic_visit(node)
+        counts = {}
+        for x in ast.walk(node):
+            if isinstance(x, ast.Name):
+                c = counts.setdefault(x.id, [0, 0])
+                c[0 if isinstance(x.ctx, ast.Store) else 1] += 1
+            elif isinstance(x, (ast.Global, ast.Nonlocal)):
+                for nm in x.names:
+                    counts.setdefault(nm, [0, 0])[0] += 5
+        params = {a.arg for a in node.args.posonlyargs + node.args.args + node.args.kwonlyargs}
+
+        def reaches_first(e, name):
+            """evaluation-order walk of `e`: 'found' if the read of `name` is reached before anything that can have an effect (a call, a
+            comprehension, ...) was evaluated; names, constants, attribute chains and subscripts of those count as effect-free"""
+            if isinstance(e, ast.Name):
+                return "found" if e.id == name else "pure"
+            if isinstance(e, ast.Constant):
+                return "pure"
+            if isinstance(e, (ast.Attribute, ast.Starred, ast.UnaryOp, ast.FormattedValue)):
+                sub = e.operand if isinstance(e, ast.UnaryOp) else e.value
+                return reaches_first(sub, name)
+            seq = None
+            after = "pure"
+            if isinstance(e, ast.Call):
+                seq, after = [e.func] + list(e.args) + [k.value for k in e.keywords], "impure"
+            elif isinstance(e, ast.BinOp):
+                seq = [e.left, e.right]
+            elif isinstance(e, ast.Compare):
+                seq = [e.left] + list(e.comparators)
+            elif isinstance(e, ast.Subscript):
+                seq = [e.value, e.slice]
+            elif isinstance(e, ast.Slice):
+                seq = [x for x in (e.lower, e.upper, e.step) if x is not None]
+            elif isinstance(e, (ast.Tuple, ast.List, ast.Set)):
+                seq = list(e.elts)
+            elif isinstance(e, ast.Dict):
+                seq = [x for kv in zip(e.keys, e.values) for x in kv if x is not None]
+            elif isinstance(e, ast.JoinedStr):
+                seq = list(e.values)
+            elif isinstance(e, (ast.BoolOp, ast.IfExp)):
+                first = e.values[0] if isinstance(e, ast.BoolOp) else e.test
+                r0 = reaches_first(first, name)
+                if r0 != "pure":
+                    return r0
+                return "impure"  # the rest is evaluated conditionally
+            if seq is None:
+                return "impure"
+            for part in seq:
+                r0 = reaches_first(part, name)
+                if r0 != "pure":
+                    return r0
+            return after
+
+        def slot(st, name):
+            """the expression of `st` in which the single read of `name` may be replaced: (owner, field)"""
+            if isinstance(st, ast.Assign):
+                if not all(self._pure(t) or (isinstance(t, (ast.Tuple, ast.List)) and all(self._pure(x) for x in t.elts)) for t in st.targets):
+                    return None
+                cand = (st, "value")
+            elif isinstance(st, ast.AugAssign):
+                if not self._pure(st.target):
+                    return None
+                cand = (st, "value")
+            elif isinstance(st, (ast.Return, ast.Expr)) and st.value is not None:
+                cand = (st, "value")
+            elif isinstance(st, ast.For):
+                cand = (st, "iter")
+            elif isinstance(st, ast.If):
+                cand = (st, "test")
+            else:
+                return None
+            e = getattr(cand[0], cand[1])
+            if sum(1 for x in ast.walk(e) if isinstance(x, ast.Name) and x.id == name) != 1:
+                return None
+            return cand if reaches_first(e, name) == "found" else None
+
+        def fix(body):
+            out, i = [], 0
+            while i < len(body):
+                st = body[i]
+                nxt = body[i + 1] if i + 1 < len(body) else None
+                if (isinstance(st, ast.Assign) and len(st.targets) == 1 and isinstance(st.targets[0], ast.Name) and nxt is not None
+                        and st.targets[0].id not in params and counts.get(st.targets[0].id) == [1, 1]
+                        and not isinstance(st.value, (ast.Yield, ast.YieldFrom, ast.Await, ast.Lambda, ast.NamedExpr))
+                        and isinstance(nxt, (ast.Assign, ast.AugAssign, ast.Return, ast.Expr, ast.For, ast.If))):
+                    sl = slot(nxt, st.targets[0].id)
+                    if sl is not None:
+                        owner, field = sl
+                        tname, val = st.targets[0].id, st.value
+
+                        class Sub(ast.NodeTransformer):
+                            def visit_Name(self, n):
+                                return val if n.id == tname and isinstance(n.ctx, ast.Load) else n
+
+                        setattr(owner, field, Sub().visit(getattr(owner, field)))
+                        i += 1
+                        continue
+                out.append(st)
+                i += 1
+            return out
+
+        for sub in ast.walk(node):
+            if sub is not node and isinstance(sub, (ast.FunctionDef, ast.AsyncFunctionDef, ast.Lambda)):
+                continue
+            for f in ("body", "orelse", "finalbody"):
+                b = getattr(sub, f, None)
+                if isinstance(b, list) and b and isinstance(b[0], ast.stmt):
+                    changed = True
+                    while changed:
+                        nb = fix(b)
+                        changed = len(nb) != len(b)
+                        b = nb
+                    setattr(sub, f, b)
+            if isinstance(sub, ast.Try):
+                for h in sub.handlers:
+                    h.body = fix(h.body)
+        return node
+
+    visit_AsyncFunctionDef = visit_FunctionDef
+
+
 def _canonicalise(tree):
-    return ast.fix_missing_locations(_Canon().visit(tree))
+    tree = _Canon().visit(tree)
+    tree = _InlineTemps().visit(tree)
+    return ast.fix_missing_locations(tree)
 
 class Index:
     def __init__(self, repo=None, overlay=None):
